@@ -312,6 +312,12 @@ struct Ptrs {
   BABYLON_COMPATIBLE((us, 1)(ui, 2)(si, 3)(vi, 4)(so, 5)(uo, 6)(vs, 7))
   TIE(us, ui, si, vi, so, uo, vs)
 };
+struct AggVupi {  // a container of smart pointers to scalars as a member (outside ty_ok of the model)
+  std::vector<std::unique_ptr<int32_t>> v;
+  int32_t x {0};
+  BABYLON_COMPATIBLE((v, 1)(x, 2))
+  TIE(v, x)
+};
 struct Arr {
   int32_t a[3];
   Inner as[2];
@@ -754,6 +760,7 @@ int main() {
   REG("inner", Inner)
   REG("onlystr", OnlyStr)
   REG("ptrs", Ptrs)
+  REG("aggvupi", AggVupi)
   REG("arr", Arr)
   REG("derived", Derived)
   REG("auto", Auto)
